@@ -28,7 +28,7 @@ def main(argv=None) -> int:
         harness.pin_environment()
         mod = importlib.import_module(f"vpcheck.checks.{prop.lower()}")
         if args.no_known:
-            mod.is_known = lambda kind, case: None
+            harness.KNOWN_ENABLED = False
         if args.replay:
             with open(args.replay) as f:
                 rec = json.load(f)
@@ -57,13 +57,11 @@ def main(argv=None) -> int:
                     continue
                 rep = e["reproducer"]
                 acc.case("known-reproducer")
-                saved = getattr(mod, "is_known", None)
-                mod.is_known = lambda kind, case: None
+                harness.KNOWN_ENABLED = False
                 try:
                     still = fails(mod, rep["kind"], rep["case"])
                 finally:
-                    if saved is not None:
-                        mod.is_known = saved
+                    harness.KNOWN_ENABLED = True
                 if still:
                     known_lines.append(f"KNOWN-FINDING: property={prop} {e['id']}: {e['what']}")
         for line in known_lines:
@@ -81,7 +79,7 @@ def main(argv=None) -> int:
                     rep["case"],
                     lambda c: mod.candidates(kind, c),
                     lambda c: bool(fails(mod, kind, c, bucket))
-                    and not (hasattr(mod, "is_known") and mod.is_known(kind, c)),
+                    and not (harness.KNOWN_ENABLED and hasattr(mod, "is_known") and mod.is_known(kind, c)),
                     budget_s=budget / max(1, min(len(acc.failures), 6)),
                 )
                 again = fails(mod, kind, small, bucket)
